@@ -375,9 +375,9 @@ def juLoop (sizes : List Int) (mono : Option (List Atom)) :
     if !isPeakValley dir then ve
     else
       juDimLoop sizes mono dims
-      -- the message of this ValueError is built with `"… %s" % single_constraint`: the constraint
-      -- is a 2-tuple, so the formatting itself raises `TypeError` (bucket error_message_formatting)
-      if !dims.Nodup then te else juLoop sizes mono rest
+      -- `len(set(dimensions)) != len(dimensions)`: since fix f7753e0 the message is formatted with
+      -- `% (single_constraint,)`, so this is the intended `ValueError` (was a `TypeError`, F-C16-n)
+      if !dims.Nodup then ve else juLoop sizes mono rest
 
 def verifyJU (sizes : List Int) (mono : Option (List Atom)) : JU → Except Err (List (List Int × Atom))
   | .none => .ok []
@@ -550,6 +550,117 @@ def laplacianRegularizer (r : RawLatReg) : Except Err Unit := do
   pure ()
 /-- since fix 4c13b7a `TorsionRegularizer.__init__` verifies its amounts like the Laplacian one -/
 def torsionRegularizer (r : RawLatReg) : Except Err Unit := laplacianRegularizer r
+
+/-! ### `Lattice.__init__` (lattice_layer.py:285-375), without custom regularizers
+
+1. `verify_hyperparameters(lattice_sizes, monotonicities, unimodalities, interpolation)`;
+2. a bare `(dimensions, 'peak'|'valley')` tuple is wrapped into a one-element list;
+3. since fix f995047: `verify_hyperparameters(lattice_sizes, monotonicities, joint_unimodalities)`;
+4. `create_kernel_initializer`: the per-dimension list `all_unimodalities` is INDEXED by the jointly
+   unimodal dimensions (an `IndexError` for a dimension `≥ rank` — what step 3 now excludes), then the
+   named initializer is constructed (and verifies its own arguments). -/
+
+/-- `isinstance(ju, tuple) and len(ju) == 2 and isinstance(ju[1], str)` → `[ju]` -/
+def wrapJU : JU → JU
+  | .single dims (.str t e) => .list [(dims, .str t e)]
+  | j => j
+
+/-- `all_unimodalities[dim] = direction` on a Python list of length `n`: negative indices count
+from the end, anything outside `[-n, n)` is an `IndexError` -/
+def pySet (l : List Atom) (d : Int) (x : Atom) : Except Err (List Atom) :=
+  if 0 ≤ d ∧ d < l.length then .ok (l.set d.toNat x)
+  else if d < 0 ∧ -(l.length : Int) ≤ d then .ok (l.set (d + l.length).toNat x)
+  else oe
+
+def pySetAll (x : Atom) : List Int → List Atom → Except Err (List Atom)
+  | [], l => .ok l
+  | d :: ds, l => do
+    let l' ← pySet l d x
+    pySetAll x ds l'
+
+/-- the two loops at the head of `create_kernel_initializer` that build `all_unimodalities`:
+`[0] * n`, overwritten by the truthy entries of `unimodalities` (scalars: the first verification
+of the constructor has canonicalised them), then by the direction of every jointly unimodal dim -/
+def allUnimodalities (n : Nat) (uni : Val) (ju : List (List Int × Atom)) : Except Err (List Atom) :=
+  let base : List Atom :=
+    match uni with
+    | .s _ xs =>
+      (List.range n).map (fun i =>
+        match xs.getD i (.a (.int 0)) with
+        | .a x => if x.truthy then x else .int 0
+        | .s _ _ => .int 0)
+    | _ => List.replicate n (.int 0)
+  ju.foldlM (fun l p => pySetAll p.2 p.1 l) base
+
+/-- `lattice_lib.default_init_params` -/
+def defaultInitParams (lo hi : Option Rat) : Rat × Rat :=
+  (match lo, hi with
+    | some l, _ => l
+    | Option.none, some h => min 0 h
+    | Option.none, Option.none => 0,
+   match hi, lo with
+    | some h, _ => h
+    | Option.none, some l => max 1 l
+    | Option.none, Option.none => 1)
+
+/-- the arguments of `Lattice.__init__` modelled here (trusts and dominances are only stored by the
+constructor; they are verified by `LatticeConstraints` at build) -/
+structure RawLatLayer where
+  sizes : Val
+  mono : Val
+  uni : Val
+  ju : JU
+  omin : Val
+  omax : Val
+  interp : Val
+  /-- `kernel_initializer`: `'linear_initializer'`, `'random_monotonic_initializer'`, the token
+  `other` for the default `'random_uniform_or_linear_initializer'`; any other value stands for a
+  plain Keras initializer (`'zeros'`) -/
+  init : Val
+
+/-- the list `create_kernel_initializer` iterates (`if joint_unimodalities: for … in …`) -/
+def JU.pairs : JU → List (List Int × Atom)
+  | .list xs => xs
+  | _ => []
+
+/-- `do_joint_unimodalities_contain_all_features`: exactly one constraint and
+`set(dimensions) == set(range(n))` -/
+def juCoversAll (n : Nat) : List (List Int × Atom) → Bool
+  | [(dims, _)] => (List.range n).all (fun i => dims.contains (Int.ofNat i)) &&
+      dims.all (fun d => decide (0 ≤ d) && decide (d < n))
+  | _ => false
+
+/-- `create_kernel_initializer(kernel_initializer, lattice_sizes, monotonicities, output_min,
+output_max, unimodalities, joint_unimodalities)` as far as it can raise -/
+def createKernelInitializer (r : RawLatLayer) (ju : JU) : Except Err Unit := do
+  let n ← r.sizes.len
+  let all ← allUnimodalities n r.uni ju.pairs
+  let uniV : Val := .s false (all.map Item.a)
+  -- `LinearInitializer(lattice_sizes, monotonicities, init_min, init_max, all_unimodalities)`
+  let lin : Except Err Unit := do
+    let lo ← boundOf r.omin
+    let hi ← boundOf r.omax
+    let ip := defaultInitParams lo hi
+    let _ ← linearInitializer ⟨r.sizes, r.mono, .a (.flt ip.1), .a (.flt ip.2), uniV⟩
+    pure ()
+  if r.init == .a (.str .linear_initializer) then lin
+  else if r.init == .a (.str .random_monotonic_initializer) then do
+    let lo ← boundOf r.omin
+    let hi ← boundOf r.omax
+    let ip := defaultInitParams lo hi
+    let _ ← randomMonotonicInitializer ⟨r.sizes, .a (.flt ip.1), .a (.flt ip.2), uniV⟩
+    pure ()
+  else if r.init == .a (.str .other) then
+    -- 'random_uniform_or_linear_initializer'
+    if juCoversAll n ju.pairs then pure () else lin
+  else pure ()
+
+def latticeLayer (r : RawLatLayer) : Except Err Unit := do
+  let _ ← verifyLattice { sizes := r.sizes, mono := r.mono, uni := r.uni, interp := r.interp }
+  let ju := wrapJU r.ju
+  -- fix f995047: the dimensions are verified BEFORE `create_kernel_initializer` indexes by them
+  let _ ← verifyLattice { sizes := r.sizes, mono := r.mono, ju := ju }
+  createKernelInitializer r ju
 
 /-! ## `pwl_calibration_lib.verify_hyperparameters` -/
 
@@ -789,14 +900,19 @@ structure RawLinC where
 def linearConstraints (r : RawLinC) : Except Err LinCfg :=
   verifyLinear Option.none r.mono r.md r.rd r.imin r.imax
 
-/-- `Linear.__init__`: broadcast, then `verify_hyperparameters(num_input_dims, monotonicities)` -/
+/-- `Linear.__init__`: broadcast, then `verify_hyperparameters(num_input_dims, monotonicities,
+input_min, input_max)` — the bounds are handed over since fix 4a8f232, so bounds of the wrong
+length, crossed bounds and non-float entries are a `ValueError` at construction even when no
+constraint object is ever created (dominances are verified by `LinearConstraints` at build) -/
 structure RawLin where
   nid : Val
   mono : Val
+  imin : Val := .a .none
+  imax : Val := .a .none
 def linearLayer (r : RawLin) : Except Err LinCfg :=
   match r.nid with
   | .a (.int k) =>
-    verifyLinear (some k.toNat) (linearBroadcast k.toNat r.mono) (.a .none) (.a .none) (.a .none) (.a .none)
+    verifyLinear (some k.toNat) (linearBroadcast k.toNat r.mono) (.a .none) (.a .none) r.imin r.imax
   | _ => oe
 
 /-! ## `categorical_calibration_lib.verify_hyperparameters` -/
@@ -835,13 +951,39 @@ def catPairs (nb : Option Int) (monoV : Val) : Except Err (List (Rat × Rat)) :=
     | .s false xs => if !(xs.all isPairItem) then ve else mapE (catPair nb) xs
     | _ => ve
 
+/-! ### the cycle check (fix 66006cc): rounds of Kahn's algorithm on the SET of pairs
+
+```
+remaining = set((i, j) for (i, j) in monotonicities)
+while remaining:
+  has_smaller = set(j for (_, j) in remaining)
+  resolved = set((i, j) for (i, j) in remaining if i not in has_smaller)
+  if not resolved: raise ValueError("Circular monotonicity constraints …")
+  remaining -= resolved
+```
+The model keeps the LIST (with its repetitions): a pair is kept or dropped together with all its
+copies, so emptiness and "nothing resolved" (= the filter dropped nothing) coincide with the set's.
+Every successful round removes at least one pair, so `fuel = length` rounds suffice
+(`Tfl.Verify.kahnAcyclic_fuel`, Lemmas/Kahn.lean: any larger fuel gives the same answer). -/
+
+/-- `remaining - resolved`: the pairs `(i, j)` whose `i` is the larger bucket of a remaining pair -/
+def kahnStep {α} [BEq α] (ps : List (α × α)) : List (α × α) :=
+  ps.filter (fun p => ps.any (fun q => q.2 == p.1))
+
+/-- `true`: the loop ends with `remaining` empty; `false`: a round resolves nothing (`ValueError`) -/
+def kahnAcyclic {α} [BEq α] : Nat → List (α × α) → Bool
+  | 0, ps => ps.isEmpty
+  | fuel + 1, ps =>
+    ps.isEmpty || ((kahnStep ps).length != ps.length && kahnAcyclic fuel (kahnStep ps))
+
 def verifyCategorical (nbV omin omax monoV : Val) : Except Err CatCfg := do
   let lo ← boundOf omin
   let hi ← boundOf omax
   if hiLtLo lo hi then ve
   else
     let ps ← catPairs (nbOf nbV) monoV
-    pure ⟨(nbOf nbV).map Int.toNat, lo, hi, ps⟩
+    if !kahnAcyclic ps.length ps then ve
+    else pure ⟨(nbOf nbV).map Int.toNat, lo, hi, ps⟩
 
 structure RawCatC where
   omin : Val
@@ -1021,12 +1163,13 @@ def outcome {α} : Except Err α → Nat
 def agrees {ρ α} (f : ρ → Except Err α) (rows : List (ρ × Nat)) : Bool :=
   rows.all (fun r => outcome (f r.1) == r.2)
 
-/-! ## cycle check of the categorical partial order (internal_utils.py:28-62)
+/-! ## cycle check of `internal_utils._topological_sort` (internal_utils.py:28-62)
 
 `_topological_sort` raises `ValueError` only when NO root exists. A pair set that contains a
-cycle but also a root (e.g. `[(0,1),(1,2),(2,1)]`) is not rejected: the sort terminates (every
+cycle but also a root (e.g. `[(0,1),(1,2),(2,1)]`) is not rejected by it: the sort terminates (every
 vertex is expanded at most once per stack position) and returns an order that is not a valid
-topological order; the projection that follows is finite. -/
+topological order. Since fix 66006cc the categorical constructors never let such a pair set reach
+the sort (`kahnAcyclic` above); the Linear dominance sets are protected by their own checks. -/
 def cycleRejected (cs : Tfl.Poset.Pairs) : Bool := (Tfl.Poset.topoSort cs).isNone
 
 end Tfl.Verify
@@ -1058,6 +1201,25 @@ def LinCfg.los (c : LinCfg) : List (Option Rat) := (c.imin.getD []).map Atom.num
 def LinCfg.his (c : LinCfg) : List (Option Rat) := (c.imax.getD []).map Atom.num
 def LinCfg.monos (c : LinCfg) : List Int :=
   (c.mono.getD []).map (fun a => match a.num with | some r => r.floor | Option.none => 0)
+
+/-! ## from an accepted categorical configuration to the pairs of `Tfl.Categorical.project`
+
+Accepted indices are non-negative numbers below `num_buckets`; the validation compares them as
+numbers, so an index spelled `1.0` is the bucket 1 (and closes cycles through 1). A non-integral
+index such as `1.5` passes the validation too (and is no bucket: the projection then raises
+`TypeError` when it indexes by it), hence the theorems about `natPairs` assume integrality. -/
+def natPairs (ps : List (Rat × Rat)) : Tfl.Poset.Pairs :=
+  ps.map (fun p => (p.1.floor.toNat, p.2.floor.toNat))
+def CatCfg.natPairs (c : CatCfg) : Tfl.Poset.Pairs := Tfl.Verify.natPairs c.pairs
+
+/-- both indices of a raw pair are Python ints -/
+def intPairItem : Item → Bool
+  | .s _ [.int _, .int _] => true
+  | _ => false
+/-- every index of the raw `monotonicities` argument is a Python int -/
+def Val.intPairs : Val → Bool
+  | .s _ xs => xs.all intPairItem
+  | .a _ => true
 
 /-- the lengths of the pieces of a piecewise-linear calibrator -/
 def pieceLengths (ks : List Rat) : List Rat := List.zipWith (fun a b => b - a) ks ks.tail
